@@ -183,6 +183,38 @@ theorem C15_drain_then_eof (s : RState) (n : Nat) :
     unfold readOut; simp [hb, close]
   · intro h; unfold readOut; simp [close] at h ⊢; simp [h]
 
+/-- successive reads with buffers of any sizes (sizes `ns`) -/
+def readMany : RState → List Nat → List Bytes × RState
+  | s, [] => ([], s)
+  | s, n :: ns =>
+    let r := Ibb.read s n
+    let rest := readMany r.1 ns
+    (r.2 :: rest.1, rest.2)
+
+/-- draining with ANY read sizes: what the reads hand out, in order, followed by what is still
+buffered, is exactly the buffer — nothing is skipped, whatever the sizes of the caller's buffers
+(1, 7, 64 …) and whether or not the stream has been closed in between -/
+theorem C15_drain_any_sizes : ∀ (ns : List Nat) (s : RState),
+    (readMany s ns).1.flatten ++ (readMany s ns).2.buf = s.buf := by
+  intro ns
+  induction ns with
+  | nil => intro s; simp [readMany]
+  | cons n ns ih =>
+    intro s
+    have := ih (Ibb.read s n).1
+    simp only [readMany, List.flatten_cons, List.append_assoc, this]
+    simp [Ibb.read]
+
+/-- after a close every read, of every size, returns data as long as any is buffered (never
+end-of-file with bytes still pending) and end-of-file exactly when the buffer is empty -/
+theorem C15_eof_only_when_drained (s : RState) (n : Nat) :
+    (readOut (Ibb.close s) n = .eof ↔ s.buf = []) ∧
+    (s.buf ≠ [] → readOut (Ibb.close s) n = .data (s.buf.take n) ∧
+      (Ibb.read (Ibb.close s) n).1.buf = s.buf.drop n ∧ (Ibb.read (Ibb.close s) n).1.live = false) := by
+  constructor
+  · unfold readOut Ibb.close; simp
+  · intro h; unfold readOut Ibb.read Ibb.close; simp [h]
+
 /-- packets for a closed stream are refused and change nothing -/
 theorem C15_closed_refuses (cd : Codec) (s : RState) (p : Packet) :
     recv cd (close s) p = (close s, .itemNotFound) := by
